@@ -47,13 +47,16 @@ def build(probe=False, quiet=True):
 
 PROBE_DIR = os.path.join(VERIF, "ffiprobe")
 PROBE_LIB = os.path.join(TARGET, "debug", "libffiprobe.so")
+PROBE2_DIR = os.path.join(VERIF, "ffiprobe2")
+PROBE2_LIB = os.path.join(TARGET, "debug", "libffiprobe2.so")
 
 
 def build_probe():
-    cmd = ["cargo", "build", "--offline"]
-    p = subprocess.run(cmd, cwd=PROBE_DIR, env=cargo_env(), stdout=subprocess.PIPE,
-                       stderr=subprocess.STDOUT, text=True)
-    if p.returncode != 0 or not os.path.exists(PROBE_LIB):
-        sys.stdout.write(p.stdout[-6000:])
-        machinery_exit("BUILD-FAILED (ffiprobe)")
+    for pdir, plib in ((PROBE_DIR, PROBE_LIB), (PROBE2_DIR, PROBE2_LIB)):
+        cmd = ["cargo", "build", "--offline"]
+        p = subprocess.run(cmd, cwd=pdir, env=cargo_env(), stdout=subprocess.PIPE,
+                           stderr=subprocess.STDOUT, text=True)
+        if p.returncode != 0 or not os.path.exists(plib):
+            sys.stdout.write(p.stdout[-6000:])
+            machinery_exit(f"BUILD-FAILED ({os.path.basename(pdir)})")
     return PROBE_LIB
